@@ -118,7 +118,12 @@ class WaitGate(raw_types.Gate):
         return f'WaitGate({self.duration})'
 
     def __repr__(self) -> str:
-        return f'cirq.WaitGate({repr(self.duration)})'
+        args = [repr(self.duration)]
+        if len(self._qid_shape) != 1:
+            args.append(f'num_qubits={len(self._qid_shape)}')
+        if any(d != 2 for d in self._qid_shape):
+            args.append(f'qid_shape={self._qid_shape!r}')
+        return f'cirq.WaitGate({", ".join(args)})'
 
     def _json_dict_(self) -> dict[str, Any]:
         d = protocols.obj_to_dict_helper(self, ['duration'])
